@@ -195,6 +195,25 @@ def judge(w, mod: Any, item: Dict[str, Any], twin: exprs.Twin, kwargs: Dict[str,
                 truths.extend(twin.values.get(idx, []))
             judged = True
             if not truths:
+                # the values of the iterations of an enclosing comprehension
+                for idx in idxs:
+                    truths.extend(getattr(twin, "scope_values", {}).get(idx, []))
+                if truths and key in all_kwargs:
+                    # the text also names an argument of the call (hidden by the loop variable inside the comprehension only): the entry
+                    # may be the listing of that argument
+                    truths.append(all_kwargs[key])
+            if not truths:
+                names_used = {n.id for i in idxs for n in ast.walk(twin.nodes[i]) if isinstance(n, ast.Name)}
+                if any(i in twin.in_scope for i in idxs) and names_used & twin.loop_variables() and key in all_kwargs:
+                    # (the text is also the name of an argument of the call: the entry is the listing of that argument)
+                    truths.append(all_kwargs[key])
+                elif any(i in twin.in_scope for i in idxs) and names_used & twin.loop_variables():
+                    # it depends on a loop variable and Python never evaluated it: no value exists that could be shown (the same
+                    # text evaluated in the enclosing scope - where a like-named argument or global may exist - is another thing)
+                    w.violation("C06/value-shown-for-a-comprehension-part-python-never-evaluated", "`{} was {}` but the sub-expression depends on the "
+                                "loop variable(s) {} and was not evaluated in any iteration".format(key, vstr[:80], sorted(names_used & twin.loop_variables())),
+                                case, detail)
+                    continue
                 if any(i in twin.in_scope or i in twin.in_fstring for i in idxs):
                     # a sub-expression inside a comprehension scope / f-string that does not depend on the loop variables
                     try:
